@@ -76,6 +76,29 @@ fn shape_tags(g: &CompositionGraph) -> Vec<&'static str> {
                 DefinedType::Tuple(ts) => ts.clone(),
                 _ => vec![],
             };
+            // an alias of a defined type gets no dependency edge from its target (`visit_defined_types`
+            // stops at an alias): when the alias has the lower node index (a reused slot) it is
+            // emitted first, with an anonymous copy of the target
+            if let DefinedType::Alias(t @ ValueType::Defined(_)) = &types[d] {
+                // the target and everything it mentions
+                let mut todo = vec![*t];
+                let mut later = false;
+                while let Some(v) = todo.pop() {
+                    let ValueType::Defined(vid) = v else { continue };
+                    if g.node_ids().any(|m| matches!(g[m].kind(), NodeKind::Definition) && g[m].item_kind() == ItemKind::Type(Type::Value(v)) && node_index(m) > node_index(id)) {
+                        later = true;
+                    }
+                    match &types[vid] {
+                        DefinedType::Record(r) => todo.extend(r.fields.values().copied()),
+                        DefinedType::List(t) | DefinedType::Option(t) | DefinedType::Alias(t) => todo.push(*t),
+                        DefinedType::Tuple(ts) => todo.extend(ts.iter().copied()),
+                        _ => {}
+                    }
+                }
+                if later && !tags.contains(&"definition-alias-before-its-target") {
+                    tags.push("definition-alias-before-its-target");
+                }
+            }
             for c in children {
                 if let ValueType::Defined(cid) = c {
                     let compound = matches!(&types[cid], DefinedType::Record(_) | DefinedType::Variant(_) | DefinedType::Enum(_) | DefinedType::Flags(_));
@@ -95,6 +118,65 @@ fn shape_tags(g: &CompositionGraph) -> Vec<&'static str> {
         }
     }
     tags
+}
+
+/// An instantiation that takes an interface `b` and the interface `a` whose types `b` uses from
+/// different sources (one from an instance, the other from the top-level imports or from another
+/// instance): every operation is accepted, but when the used type is a resource the two arguments
+/// cannot agree on it.
+fn split_tags(g: &CompositionGraph) -> Vec<String> {
+    use wac_graph::types::ItemKind;
+    use wac_graph::NodeKind;
+    let types = g.types();
+    let mut tags: Vec<String> = Vec::new();
+    for n in g.node_ids() {
+        let Some(pid) = g[n].package() else { continue };
+        if !matches!(g[n].kind(), NodeKind::Instantiation(_)) {
+            continue;
+        }
+        let world = &types[g[pid].ty()];
+        let args: Vec<(String, wac_graph::NodeId)> = g.get_instantiation_arguments(n).map(|(a, s)| (a.to_string(), s)).collect();
+        // where an argument comes from: the instance it is aliased from / the node itself; none = top level
+        let origin = |name: &str| -> Option<usize> {
+            let (_, s) = args.iter().find(|(a, _)| a == name)?;
+            match g[*s].kind() {
+                // an import under the argument's own name is the top-level import of the interface;
+                // an import under another name is a source of its own
+                NodeKind::Import(n) if n == name => None,
+                NodeKind::Import(_) => Some(node_index(*s)),
+                NodeKind::Alias => g.get_alias_source(*s).map(|(r, _)| node_index(r)),
+                _ => Some(node_index(*s)),
+            }
+        };
+        for (bname, bk) in &world.imports {
+            let ItemKind::Instance(bid) = bk else { continue };
+            for u in types[*bid].uses.values() {
+                let Some(aid) = types[u.interface].id.clone() else { continue };
+                let Some((aname, _)) = world.imports.iter().find(|(_, k)| matches!(k, ItemKind::Instance(x) if types[*x].id.as_deref() == Some(aid.as_str()))) else { continue };
+                if origin(aname) != origin(bname) {
+                    let t = "used-interface-from-another-source".to_string();
+                    if !tags.contains(&t) {
+                        tags.push(t);
+                    }
+                }
+            }
+        }
+    }
+    tags
+}
+
+fn tagged(g: &CompositionGraph, what: &str, msg: &str) -> String {
+    let tags = shape_tags(g);
+    if msg.contains("not valid to be used as") && !tags.is_empty() {
+        return format!("{what}: {msg} [named type out of scope: {}]", tags.join(","));
+    }
+    if msg.contains("type mismatch for import") {
+        let st = split_tags(g);
+        if !st.is_empty() {
+            return format!("{what}: {msg} [resource split: {}]", st.join(","));
+        }
+    }
+    format!("{what}: {msg}")
 }
 
 struct Outcome {
@@ -137,12 +219,7 @@ fn encode_and_judge(out: &mut Out, g: &CompositionGraph, classes: &[Vec<u8>], de
                     out.count("result:validation-failure");
                     r.s("validation");
                     let msg = normalise(&first_line(&source.to_string()));
-                    let tags = shape_tags(g);
-                    fail = Some(if msg.contains("not valid to be used as") && !tags.is_empty() {
-                        format!("post-hoc ValidationFailure: {} [named type out of scope: {}]", msg, tags.join(","))
-                    } else {
-                        format!("post-hoc ValidationFailure: {}", msg)
-                    });
+                    fail = Some(tagged(g, "post-hoc ValidationFailure", &msg));
                 }
             }
         }
@@ -162,12 +239,7 @@ fn encode_and_judge(out: &mut Out, g: &CompositionGraph, classes: &[Vec<u8>], de
             if let Err(e) = validate_all(&bytes) {
                 out.count("oracle:validator-rejects");
                 let msg = normalise(&first_line(&e));
-                let tags = shape_tags(g);
-                fail = Some(if msg.contains("not valid to be used as") && !tags.is_empty() {
-                    format!("validator rejects the output: {} [named type out of scope: {}]", msg, tags.join(","))
-                } else {
-                    format!("validator rejects the output: {}", msg)
-                });
+                fail = Some(tagged(g, "validator rejects the output", &msg));
             }
             bytes_out = Some(bytes);
         }
@@ -179,7 +251,7 @@ fn run_ops_case(out: &mut Out, seed: u64, shard: u64, i: u64, per_lib: u64) {
     let l = i / per_lib;
     let mut lrng = Rng::new(seed.wrapping_mul(41).wrapping_add(shard.wrapping_mul(1_000_037)).wrapping_add(l).wrapping_add(0xC01));
     let pool = if l % 2 == 0 { name_pool() } else { name_pool_c01() };
-    let lib = build_library_from(&mut lrng, 5, true, pool);
+    let lib = build_library_sel(&mut lrng, 5, LibSel { wit: true, res: true, ver: true, twins: true }, pool);
     let mut rng = Rng::new(seed.wrapping_mul(1_000_003).wrapping_add(shard.wrapping_mul(7877)).wrapping_add(i.wrapping_mul(104_717)));
     let cfg = GenCfg {
         steps: 6 + rng.below(18),
@@ -187,6 +259,7 @@ fn run_ops_case(out: &mut Out, seed: u64, shard: u64, i: u64, per_lib: u64) {
         definitions: rng.chance(1, 2),
         loose_imports: rng.chance(1, 3),
         typed_items: rng.chance(1, 3),
+        wire: rng.chance(1, 2),
     };
     // a panic inside a graph operation is C06's; the composition is then not "accepted"
     let built = match guarded(AssertUnwindSafe(|| {
@@ -201,6 +274,7 @@ fn run_ops_case(out: &mut Out, seed: u64, shard: u64, i: u64, per_lib: u64) {
     };
     count_ops(&built.ops, &mut out.stats);
     out.count(&format!("cfg:removal={} loose={} typed={}", cfg.removal, cfg.loose_imports, cfg.typed_items));
+    out.count(&format!("cfg:wire={}", cfg.wire));
     let g = &built.graph;
     let ids: Vec<_> = built.pkgs.iter().map(|(_, id)| *id).collect();
     let dumped = guarded(AssertUnwindSafe(|| {
@@ -233,6 +307,19 @@ fn run_ops_case(out: &mut Out, seed: u64, shard: u64, i: u64, per_lib: u64) {
         }
         t
     };
+    if dump.multi_version_names > 0 {
+        out.count("shape:one-package-name-instantiated-at-several-versions");
+    }
+    if dump.multi_arg_pairs > 0 {
+        out.count("shape:several-exports-of-one-instance-passed-to-one-instantiation");
+    }
+    if std::env::var_os("WACV_DEBUG").is_some() {
+        eprintln!("OPS {}", ops_text(&built.ops));
+        eprintln!("{:?}", g);
+        if let Ok(b) = g.encode(EncodeOptions { define_components: false, validate: false, processor: None }) {
+            eprintln!("valid={:?}\n{}", validate_all(&b), wasmprinter::print_bytes(&b).unwrap_or_default());
+        }
+    }
     for define in [true, false] {
         let off = encode_and_judge(out, g, &dump.classes, define, false);
         let on = encode_and_judge(out, g, &dump.classes, define, true);
